@@ -60,6 +60,9 @@ NUM_CLIENTS = 3
 # index 3: digits in the path (a checkpoint round must be parsed from the NAME after base_path, not by stripping
 # characters that also occur in the directory name)
 ROOTS = ['run', 'run+1.(a)$', 'run[1]', 'exp_2013_r01']
+# files of somebody else whose names nearly are checkpoint names (the same list as foreign_names in C09_Model.v)
+FOREIGN = ['checkpoint_1', 'checkpoint_000000011', 'checkpoint_0000000a', 'checkpoint_00000001.bak', 'checkpoint_',
+           'xcheckpoint_00000001', 'checkpoint_00000002 ']
 
 
 # --------------------------------------------------------------------------
@@ -83,7 +86,10 @@ class _Gfile:
 
   def glob(self, pattern):
     self._env.rec.effect(('gl', self._name(pattern)))
-    return self._real.glob(pattern)
+    got = self._real.glob(pattern)
+    # a directory listing has no guaranteed order: deliver it reversed / rotated
+    k = self._env.glob_order
+    return got if k == 0 else list(reversed(got)) if k == 1 else got[1:] + got[:1]
 
   def rename(self, a, b, overwrite=False):
     self._env.rec.effect(('rn', self._name(a), self._name(b)))
@@ -131,6 +137,7 @@ class _Env:
     import fedjax.training.federated_experiment as fe
     self.real_tf = _REAL['tf'] if _REAL else fe.tf
     self.root, self.rec, self.decode = root, rec, decode
+    self.glob_order = 0
     self.flags = {'load_raised': None, 'retention': [], 'first_round': None, 'visible_at_start': None}
 
   def rel(self, path):
@@ -415,6 +422,9 @@ def _make_evals(env, case):
     if nev >= 3:   # its own sampler is seated to the round number the final evaluation is given
       finals['e2'] = fe.ModelSampleClientsEvaluationFn(
           fedjax.client_samplers.UniformGetClientSampler(fd, 2, seed=3), _model(), hp)
+  if form & 4:    # final evaluations whose names look like checkpoint names: their .tsv must not confuse the filter
+    finals['checkpoint_00000001'] = Final(7)
+    finals['checkpoint_'] = Final(8)
   if form & 2:
     per['p2'] = PeriodicTrain()
     finals['zz'] = NoMetrics()
@@ -430,6 +440,7 @@ def _one_run(case, root, crash, ctx):
   cfg = case['cfg']
   rec = crashfs.Recorder(*(crash if crash else (None, 0, 0)))
   env = _Env(root, rec, lambda name, data: _decode(name, data, ctx))
+  env.glob_order = (case.get('form', 0) + case['cfg']['keep']) % 3
   out = {'crashed': False, 'error': None, 'state': None}
   with _Patched(env):
     alg, init = _algorithm(case)
@@ -438,7 +449,10 @@ def _one_run(case, root, crash, ctx):
 
       def apply(state, clients):
         new, diag = inner(state, clients)
-        ctx['record_states'].append(_state_bytes(new))
+        sig = _state_bytes(new)
+        ctx['record_states'].append(sig)
+        # hypothesis load (save s) = s, checked with python's own pickle, independently of fedjax
+        ctx['roundtrip_ok'] = ctx.get('roundtrip_ok', True) and _state_bytes(pickle.loads(pickle.dumps(new))) == sig
         return new, diag
       alg = type(alg)(alg.init, apply)
     per, fin = _make_evals(env, case)
@@ -519,7 +533,7 @@ def _decode(name, data, ctx):
     if ctx.get('ref_tsv', {}).get(name) == data.hex() and ctx.get('R') is not None:
       return ['w', 1, int(m.group(1)), ctx['R'], 0, ctx['R']]
     return ['t']
-  return ['w', 2, len(data)]
+  return ['w'] + list(data) if len(data) <= 4 else ['w', 2, len(data)]
 
 
 def _observe_dir(root, ctx):
@@ -527,7 +541,7 @@ def _observe_dir(root, ctx):
   for n in crashfs.listing(root):
     with open(os.path.join(root, n), 'rb') as f:
       data = f.read()
-    out.append([n, _decode(n, data, ctx), data.hex() if _TSV.match(n) else None])
+    out.append([n, _decode(n, data, ctx), data.hex() if n.endswith('.tsv') else None])
   return out
 
 
@@ -555,6 +569,7 @@ def _reference(case):
                      [int(x) for x in r['state']] if case['algo'] == 'toy' else
                      _abstract(bytes.fromhex(r['state_bytes']), ctx2)),
            'state_bytes': r.get('state_bytes'), 'state_summary': r.get('state_summary'),
+           'hyp_load_save': bool(ctx.get('roundtrip_ok', True)),
            'tsv': {n: h for n, _, h in r['dir'] if h is not None}}
   finally:
     shutil.rmtree(base, ignore_errors=True)
@@ -640,7 +655,69 @@ def _direct_cases(rng, n):
     yield {'algo': 'direct', 'root': [0, 1, 3][i % 3], 'ops': [['load']] + ops + [['load']]}
 
 
+# --------------------------------------------------------------------------
+# global JAX configuration flags: cases with a 'flags' field run in a worker process started with that setting
+
+FLAG_ENV = {
+    'x64': {'JAX_ENABLE_X64': '1'},
+    'rbg': {'JAX_DEFAULT_PRNG_IMPL': 'rbg'},
+    'part0': {'JAX_THREEFRY_PARTITIONABLE': '0'},
+    'nojit': {'JAX_DISABLE_JIT': '1'},
+}
+_WORKERS = {}
+
+
+def _worker(flags):
+  import atexit
+  import subprocess
+  import sys
+  if flags not in _WORKERS:
+    env = dict(os.environ)
+    env.update(FLAG_ENV[flags])
+    env['C09_WORKER'] = flags
+    p = subprocess.Popen([sys.executable, '-m', 'harness.c09'], stdin=subprocess.PIPE, stdout=subprocess.PIPE,
+                         stderr=subprocess.DEVNULL, env=env, text=True)
+    _WORKERS[flags] = p
+    atexit.register(lambda: (p.stdin.close(), p.terminate()))
+  return _WORKERS[flags]
+
+
+def _remote(case):
+  import json
+  p = _worker(case['flags'])
+  p.stdin.write(json.dumps(case) + '\n')
+  p.stdin.flush()
+  while True:
+    line = p.stdout.readline()
+    if not line:
+      _WORKERS.pop(case['flags'], None)
+      raise RuntimeError('flag worker died')
+    if line.startswith('@@OBS@@'):
+      obs = json.loads(line[7:])
+      if 'worker_error' in obs:
+        raise RuntimeError('flag worker: ' + obs['worker_error'])
+      return obs
+
+
+def _worker_main():
+  import json
+  import sys
+  import traceback
+  for line in sys.stdin:
+    line = line.strip()
+    if not line:
+      continue
+    try:
+      obs = run(json.loads(line))
+    except Exception:  # pylint: disable=broad-except
+      obs = {'worker_error': traceback.format_exc()[-800:]}
+    sys.stdout.write('@@OBS@@' + json.dumps(obs, default=str) + '\n')
+    sys.stdout.flush()
+
+
 def run(case):
+  if case.get('flags') and os.environ.get('C09_WORKER') != case['flags']:
+    return _remote(case)
   import fedjax  # noqa: F401  pylint: disable=unused-import
   if case['algo'] == 'direct':
     return _run_direct(case)
@@ -650,6 +727,11 @@ def run(case):
   runs = []
   try:
     root = os.path.join(base, ROOTS[case['root']])
+    if case.get('foreign'):
+      os.makedirs(root)
+      for n in FOREIGN:
+        with open(os.path.join(root, n), 'wb') as f:
+          f.write(b'\x07\x07')
     for crash in list(case['crashes']) + [None]:
       r = _one_run(case, root, crash, ctx)
       runs.append({'crashed': r['crashed'], 'error': r['error'], 'state': r['state'], 'dir': r['dir'],
@@ -659,7 +741,7 @@ def run(case):
         break
   finally:
     shutil.rmtree(base, ignore_errors=True)
-  return {'ref': {k: ref[k] for k in ('error', 'state', 'tsv', 'trace_len', 'state_bytes', 'state_summary')},
+  return {'ref': {k: ref[k] for k in ('error', 'state', 'tsv', 'trace_len', 'state_bytes', 'state_summary', 'hyp_load_save')},
           'digests': _digests(case['seed'], case['cfg']['R']) if case['algo'] == 'toy' else [0] * case['cfg']['R'],
           'runs': runs}
 
@@ -694,6 +776,12 @@ def oracle(case, obs):
     if any(n > cfg['keep'] for n in fl['retention']):
       out.append(('retention-exceeded', f'run {i}: {max(fl["retention"])} checkpoint files right after a completed '
                   f'save, num_checkpoints_to_keep = {cfg["keep"]}'))
+    if case.get('foreign'):
+      there = {n: content for n, content, _ in r['dir']}
+      gone = [n for n in FOREIGN if there.get(n) != ['w', 7, 7]]
+      if gone:
+        out.append(('foreign-file-touched', f'run {i}: files that do not pass the checkpoint name filter were '
+                    f'removed or changed: {gone}'))
     for n, content, _ in r['dir']:
       if _CK.match(n) and content[0] != 'w':
         out.append(('visible-checkpoint-torn', f'run {i}: {n} is visible under its final name but does not unpickle'))
@@ -774,8 +862,8 @@ def _odir(d):
 
 
 def encode(case, obs):
-  if case['algo'] == 'direct':
-    return None
+  if case['algo'] == 'direct' or case.get('form', 0) & 4:
+    return None     # colliding evaluation names: files the model has no name for; judged by the oracle
   if obs['ref']['error'] is not None or any(r['error'] is not None for r in obs['runs']):
     return None
   cfg = case['cfg']
@@ -785,7 +873,7 @@ def encode(case, obs):
   ks = fw.natlist([c[0] for c in case['crashes']])
   dirs = fw.clist([_odir(r['dir']) for r in obs['runs'][:-1]])
   trace = fw.clist([_oev(e) for e in last['trace']])
-  c = (f'(mkC09 {cfg["R"]} {cfg["freq"]} {cfg["keep"]} {cfg["evf"]} {cfg["nev"]}%nat {fw.zlist(obs["digests"])} {ks})')
+  c = (f'(mkC09 {cfg["R"]} {cfg["freq"]} {cfg["keep"]} {cfg["evf"]} {cfg["nev"]}%nat {fw.zlist(obs["digests"])} {ks} {fw.cbool(bool(case.get("foreign")))})')
   o = (f'(mkO09 {dirs} {trace} {_odir(last["dir"])} ({fw.zlit(last["state"][0])}, {fw.zlit(last["state"][1])}))')
   return f'({c}, {o})'
 
@@ -867,7 +955,7 @@ def generate(tier, rng):
   full = tier == 'thorough'
   for cfg, i in grid:
     base = {'algo': 'toy', 'cfg': cfg, 'root': 1 if i % 5 == 3 else 3 if i % 5 == 1 else 0, 'seed': [11, 0, 12][i % 3],
-            'form': i % 4, 'crashes': []}
+            'form': (i % 4) + (4 if i % 21 == 3 else 0), 'foreign': 1 if i % 3 == 2 else 0, 'crashes': []}
     yield base
     tr, rw = _probe(base)
     pts = _crash_points(tr, rw, full, i)
@@ -906,6 +994,15 @@ def generate(tier, rng):
     for p1 in rng.sample(pts, min(len(pts), 4)):
       tr2, rw2 = _probe({**base, 'crashes': [p1]})
       yield {**base, 'crashes': [p1, rng.choice(_crash_points(tr2, rw2, False, 1))]}
+  # the same experiments under non-default global JAX flags (worker process per setting)
+  for flags in (['x64', 'rbg', 'part0', 'nojit'] if full else ['x64']):
+    for algo, cfg in [('mixed', _cfg(3, 1, 1, 0, 1))] + ([('fedavg', _cfg(2, 1, 1, 1, 2))] if full else []):
+      base = {'algo': algo, 'cfg': cfg, 'root': 0, 'seed': 7, 'form': 1, 'crashes': []}
+      tr, rw = _probe(base)
+      yield {**base, 'flags': flags}
+      for p in _crash_points(tr, rw, False, 0):
+        if p[0] >= len(tr) or tr[p[0]][0] in ('cr', 'wr', 'cl', 'rn', 'rm'):
+          yield {**base, 'flags': flags, 'crashes': [p]}
   # FedAvg on a tiny in-memory dataset
   favg = [_cfg(3, 2, 1, 1, 3)] + ([_cfg(4, 1, 2, 2, 2), _cfg(5, 3, 1, 0, 1)] if full else [])
   for cfg in favg:
@@ -930,7 +1027,10 @@ def describe(case, obs):
   if case['algo'] == 'direct':
     return {'algo': 'direct', 'ops': len(case['ops'])}
   cfg = case['cfg']
-  return {'algo': case['algo'], 'R': cfg['R'], 'freq': cfg['freq'], 'keep': cfg['keep'], 'evf': cfg['evf'],
+  return {'hyp_load_save(pickle round trip of every state)': 'holds' if obs['ref'].get('hyp_load_save', True) else 'VIOLATED',
+          'hyp_R_lt_1e8_keep_ge_1': 'holds' if 0 <= cfg['R'] < 10 ** 8 and cfg['keep'] >= 1 else 'VIOLATED',
+          'flags': case.get('flags', '-'), 'foreign': case.get('foreign', 0), 'form': case.get('form', 0),
+          'algo': case['algo'], 'R': cfg['R'], 'freq': cfg['freq'], 'keep': cfg['keep'], 'evf': cfg['evf'],
           'nev': cfg['nev'], 'depth': len(case['crashes']),
           'crashes_that_happened': sum(1 for r in obs['runs'] if r['crashed']),
           'restart_after_completion': sum(1 for r in obs['runs'][:-1] if not r['crashed'] and r['error'] is None),
@@ -954,3 +1054,7 @@ def shrink(case):
   for j, c in enumerate(case['crashes']):
     if c[0] > 0:
       yield {**case, 'crashes': case['crashes'][:j] + [[c[0] - 1, c[1], c[2]]] + case['crashes'][j + 1:]}
+
+
+if __name__ == '__main__':
+  _worker_main()
